@@ -37,6 +37,14 @@ P = {
              tech="TLC invariant UniqueOK on MC_Txn + must-accept/must-reject trace validation"),
  "C07": dict(engine="tla-txn", cat="model_checking", text=TXN_TEXT, note=TXN_NOTE, ref="6 C07",
              tech="Monitor.tla: each wire notification of the real server judged as the exact difference (TLC trace validation)"),
+ "C08": dict(engine="tla-cond", cat="model_checking", ref="6 C08",
+             text="Cond.tla is the RFC 7047 section 5.1 semantics; MC_Cond.tla checks sanity laws (conjunction = intersection, == and != partition) and "
+                  "enumerates, per column kind, every (function, argument) against a table holding every value of the kind, 1024 ordered pairs of a "
+                  "32-condition pool and 800 triples; each case is evaluated by RowsByCondition under 7 index configurations and by select in a "
+                  "transaction on integer/string/uuid/real columns, and through WhereAll/WhereAny List and the Delete/Update operations they generate on a "
+                  "synchronised client; TLC compares every answer with Cond!Select.",
+             note="Trusted: TLC, value instantiation from an integer universe; binding self-test in every shard.",
+             tech="TLA+ reference semantics (Cond.tla) + exhaustive enumerate-and-replay under index configurations + TLC trace validation"),
  "C10": dict(engine="tla-diff", cat="model_checking", ref="6 C10",
              text="Diff.tla states the update2 difference algebra; TLC checks the laws (empty iff equal, Apply(a, Diff(a,b)) = b, merge law, toggle) "
                   "exhaustively over all pairs of subsets of a 4-element universe, all pairs of maps over 3 keys x 2 values, optionals and atoms, "
@@ -55,6 +63,7 @@ P = {
 }
 ENGINES = {
  "tla-txn": ("spec/TraceTxn.tla", "TLA+ reference model of OVSDB transactions, references, indexes and monitors + TLC trace validation of executions recorded from the real engine/server"),
+ "tla-cond": ("spec/Cond.tla", "RFC 7047 condition semantics in TLA+, enumeration of condition cases, validation of cache/select/API selections"),
  "tla-session": ("spec/Session.tla", "TLA+ model of monitor set-up vs notify/commit (Session.tla), schedules forced with pause points, sessions validated by TraceTxn.tla"),
  "tla-diff": ("spec/Diff.tla", "TLA+ difference algebra and update aggregation (Diff.tla, Merge.tla) + enumerate-and-replay through the updates package"),
  "tla-cache": ("spec/Cache.tla", "TLA+ state machine of the row cache's index maintenance + enumerate-and-replay + TLC trace validation"),
